@@ -32,21 +32,33 @@ Section WithTables.
   Lemma no_global_set_session : forall c s, no_global c -> no_global (set_session c s).
   Proof. intros c s H. exact H. Qed.
 
+  Lemma no_global_tok_alloc : forall c t, no_global c -> no_global (tok_alloc c t).
+  Proof. intros c t H. exact H. Qed.
+  Lemma no_global_tok_update : forall c f, no_global c -> no_global (tok_update c f).
+  Proof.
+    intros c f H. unfold tok_update. destruct (ss_token (c_session c)) as [i|]; [|exact H].
+    destruct (nth_error (c_toks c) i); exact H.
+  Qed.
+
   Lemma sfe_tokens_frame : forall ts g g0 c e auth, no_global c ->
     sfe_tokens uri_none g c e auth ts = with_g g (sfe_tokens uri_none g0 c e auth ts) /\ ores_inv (sfe_tokens uri_none g0 c e auth ts).
   Proof.
     induction ts as [|t ts IH]; intros g g0 c e auth Hc; cbn [sfe_tokens].
-    - destruct (ss_token (c_session c)); cbn; split; try reflexivity; exact Hc.
+    - destruct (ss_token (c_session c)); cbn [with_g ores_inv]; split; try reflexivity; exact Hc.
     - destruct t as [t|]; [|cbn; split; [reflexivity|exact I]].
-      destruct (negb (N.eqb (et_type t) auth)); [apply IH; exact Hc|]. cbn. split; [reflexivity|exact Hc].
+      destruct (negb (N.eqb (et_type t) auth)); [apply IH; exact Hc|]. cbn [with_g ores_inv]. split; [reflexivity|].
+      apply no_global_set_session. unfold set_policy_id. apply no_global_tok_update.
+      destruct (ss_token (c_session c)); [exact Hc|]. destruct (N.leb auth 3); [apply no_global_tok_alloc|]; exact Hc.
   Qed.
 
-  Lemma auth_token_frame : forall g g0 c kind f, no_global c ->
-    auth_token g c kind f = with_g g (auth_token g0 c kind f) /\ ores_inv (auth_token g0 c kind f).
+  Lemma auth_token_frame : forall g g0 c kind ft fs, no_global c ->
+    auth_token g c kind ft fs = with_g g (auth_token g0 c kind ft fs) /\ ores_inv (auth_token g0 c kind ft fs).
   Proof.
-    intros g g0 c kind f Hc. unfold auth_token.
-    destruct (ss_token (match ss_token (c_session c) with Some _ => c_session c | None => ss_set_token (c_session c) (Some (tok0 kind)) end)) as [t|];
-      [destruct (N.eqb (t_kind t) kind)|]; cbn; split; try reflexivity; exact Hc.
+    intros g g0 c kind ft fs Hc. unfold auth_token.
+    set (c1 := match ss_token (c_session c) with Some _ => c | None => tok_alloc c (tok0 kind) end).
+    assert (H1 : no_global c1) by (subst c1; destruct (ss_token (c_session c)); [exact Hc | apply no_global_tok_alloc; exact Hc]).
+    destruct (tok_get c1) as [t|]; [destruct (N.eqb (t_kind t) kind)|]; cbn [with_g ores_inv]; split; try reflexivity; try exact H1.
+    apply no_global_set_session. apply no_global_tok_update. exact H1.
   Qed.
 
   Lemma set_certificate_frame : forall g g0 c cert i, no_global c ->
@@ -78,7 +90,8 @@ Section WithTables.
     - destruct f; cbn; split; try reflexivity; try exact I; exact Hc.
     - destruct f; try (cbn; split; [reflexivity | exact Hc]). apply set_certificate_frame; exact Hc.
     - destruct e as [e|]; [|cbn; split; [reflexivity|exact I]]. apply sfe_tokens_frame. exact Hc.
-    - destruct (ss_token (c_session c)); cbn; split; try reflexivity; exact Hc.
+    - destruct (ss_token (c_session c)); cbn [with_g ores_inv]; split; try reflexivity; try exact Hc.
+      unfold set_policy_id. apply no_global_tok_update. exact Hc.
     - destruct d as [u|]; [|cbn; split; [reflexivity|exact I]].
       destruct u as [un ua]. destruct ua; cbn in Hok; try discriminate; cbn; split; try reflexivity; discriminate.
     - unfold no_global in Hc. destruct (c_dialer c) as [dl|] eqn:Ed; [|cbn; split; [reflexivity|exact I]].
